@@ -47,7 +47,7 @@ class C:
     def __truediv__(a, b):
         den = b.re * b.re + b.im * b.im
         return C((a.re * b.re + a.im * b.im) / den, (a.im * b.re - a.re * b.im) / den)
-    def isconst(s): return s.re.isconst() and s.im.isconst()
+    def isconst(s): return hasattr(s.re, 'isconst') and hasattr(s.im, 'isconst') and s.re.isconst() and s.im.isconst()
     def iszero(s): return s.isconst() and s.re.value() == 0 and s.im.value() == 0
 
 
@@ -412,7 +412,11 @@ class Flow:
 def param_handle(flow, spec, cache, val):
     if isinstance(spec, str): return PRE[spec][0]
     if spec not in cache:
-        cache[spec] = flow.scalar_parameter(val(spec, None))
+        if spec[0] == 'unk':        # unknown parameter: the initial guess is a scalar parameter near the true value
+            h0 = flow.scalar_parameter(val(spec, None) + cconst(Fraction(1, 64), Fraction(-1, 128)))
+            cache[spec] = flow.icall('vnacal_make_unknown_parameter', [flow.vcp, h0])
+        else:
+            cache[spec] = flow.scalar_parameter(val(spec, None))
     return cache[spec]
 
 
@@ -711,13 +715,15 @@ def symbolic_check(mod, cfg, choices=(), generic=True, holder=None):
 def symbolic_all_paths(mod, cfg, max_paths=16, generic=True):
     """every feasible path of the symbolic run.  generic=True: symbolic equality tests take the '!=' branch (the set where two
     free values coincide is outside the claim and listed per path as 'generic_assumed'); order comparisons fork."""
-    import z3, irsym
+    import z3, irsym, irx
     todo = [[]]; results = []; unwitnessed = set()
     while todo:
         ch = todo.pop()
         holder = {'unwitnessed': any(tuple(ch[:i]) in unwitnessed for i in range(len(ch) + 1))}
         try:
             r, flow = symbolic_check(mod, cfg, ch, generic=generic, holder=holder)
+        except irx.PathInfeasible:
+            continue
         except irsym.Fork as fk:
             it = holder['flow'].it
             for b in (True, False):
@@ -793,13 +799,15 @@ def capture_run(mod, cfg, choices=(), holder=None, pre=None, tag='', freq_ids=(0
 
 def all_paths(run, max_paths=32):
     """run(choices, holder) -> result; explores every feasible combination of undecided order comparisons"""
-    import z3, irsym
+    import z3, irsym, irx
     todo = [[]]; results = []
     while todo:
         ch = todo.pop()
         holder = {}
         try:
             r = run(ch, holder)
+        except irx.PathInfeasible:
+            continue
         except irsym.Fork as fk:
             it = holder['flow'].it
             for b in (True, False):
